@@ -12,7 +12,7 @@ ID = 'C05'
 LEVEL = 'exploration'
 BUDGET = {'quick': 20, 'thorough': 240}
 STREAM_ORDER = ['ops', 'guards', 'moves', 'mat', 'chart', 'cfg']
-RULE = ('well-formed chart drawn per run whose code sends events (with and without delay); the seeded scheduler interleaves 1-3 logical '
+RULE = ('well-formed chart drawn per run whose code sends events (with and without delay; in half of the runs it also notifies, in between its sends); the seeded scheduler interleaves 1-3 logical '
         'clients calling queue() - an Event instance, a name with keyword parameters, or both in one call - with delays from {none,0,1,2,2,5} (ties on purpose; in a third of the runs also -1 and -4: due since before it was queued), in a third of the runs the clock also moves while guards are evaluated, in a third clients and code also use events without any distinguishing parameter (an external and an internal one of the same name and delay compare equal), in a quarter a listener queues further events while it is told about a consumption, the statechart own sends, clock moves (0, exactly to the '
         'next due time, one tick short of it, far beyond) and execute_once; a two-queue reference model runs in lock-step and the recorded '
         'history is checked at the end after a drain (every uid consumed exactly once, never before its due time); non-trivial = a '
@@ -27,7 +27,7 @@ TECHNIQUE = 'deterministic simulation: seeded interleaving of clients, sends, cl
 
 def run(ch, tier):
     res = Result()
-    cfg = swarm(ch.s('cfg'), Cfg(sends=True, delays=True, eventless=True, neg_delays=ch.s('cfg').flag(1, 3), anon=ch.s('cfg').flag(1, 3)), tier)
+    cfg = swarm(ch.s('cfg'), Cfg(sends=True, delays=True, eventless=True, neg_delays=ch.s('cfg').flag(1, 3), anon=ch.s('cfg').flag(1, 3), notify=ch.s('cfg').flag(1, 2)), tier)
     sp = gen_spec(ch.s('chart'), cfg)
     from sim.probes import SimClock
     # the interpreter may be created on a clock that is already running late, and events may be queued
